@@ -47,6 +47,7 @@ Conc(s) ==
     [] s = "cm"   -> <<"%", "j", NL>>
     [] s = "lb"   -> <<BS,"l","a","b","e","l","{","k","}">>
     [] s = "ix"   -> <<BS,"i","n","d","e","x","{","k","}">>
+    [] s = "fnm"  -> <<BS,"f","o","o","t","n","o","t","e","m","a","r","k">>   \* trailing optional argument absent: README documents that the space behind is consumed
     [] s = "uk"   -> <<BS,"f","o","o">>
     [] s = "uk2"  -> <<BS,"b","a","r">>
     [] s = "hsu"  -> <<BS,"h","s","p","a","c","e","{",BS,"f","o","o","}">>       \* an undeclared macro in an argument that is only inspected
@@ -248,7 +249,7 @@ EnvOf(s) == CASE s \in {"bi","ei"} -> "itemize" [] s \in {"be","ee"} -> "enumera
               [] s \in {"bu","eu"} -> "unk" [] s \in {"bl","el"} -> "lstlisting" [] s \in {"bm","em"} -> "minipage"
 
 AllSyms == Visible \cup ReplSyms \cup OpenSyms \cup BeginSyms \cup EndSyms \cup
-   {"sp","nl","tab","cm","lb","ix","uk","uk2","cb","skp","par","im","imp","ref","cite","skb","ske","q","fnq","it","vb","vbd","vbb","vrb","vrb2","ocb","ctc","rbk","up","uA","uBt","uH","hsu","phu","cmf","cmu","acb","ltE","ltD","gld","gls","ilc","tamp","tbsl","acc","hsp","hs0","phn","tbs","ntm","fct"} \cup DefSyms \cup MathSyms \cup FaultSyms \cup LangSyms
+   {"sp","nl","tab","cm","lb","ix","uk","uk2","cb","skp","par","im","imp","ref","cite","skb","ske","q","fnq","it","fnm","vb","vbd","vbb","vrb","vrb2","ocb","ctc","rbk","up","uA","uBt","uH","hsu","phu","cmf","cmu","acb","ltE","ltD","gld","gls","ilc","tamp","tbsl","acc","hsp","hs0","phn","tbs","ntm","fct"} \cup DefSyms \cup MathSyms \cup FaultSyms \cup LangSyms
 
 (***************************************************************************)
 (* Reference state                                                         *)
@@ -269,7 +270,7 @@ Pos0(st) == Len(st.src)          \* 0-based offset of the next character = 1-bas
 
 CurLang(st) == st.lstack[Len(st.lstack)]
 Emit(st, items) == [st EXCEPT !.flows[CurFlow(st)] = @ \o [i \in 1..Len(items) |-> [items[i] EXCEPT !.lg = CurLang(st)]]]
-CwSyms == {"uk", "uk2", "par", "it", "uA", "uH", "mal", "mnn", "tbs"}        \* symbols whose text ends with a control word
+CwSyms == {"uk", "uk2", "par", "it", "fnm", "uA", "uH", "mal", "mnn", "tbs"}        \* symbols whose text ends with a control word
 AddSrc(st, s) == [st EXCEPT !.src = @ \o Conc(s), !.cw = s \in CwSyms, !.vis = s \in Visible, !.ls = s]
 Feat(st, f) == [st EXCEPT !.feat = @ \cup {f}]
 \* text seen inside the innermost heading (for the dot rule) and in every enclosing frame
@@ -440,7 +441,8 @@ Step(st, s) ==
      ( IF s = "fnq" THEN Feat(s1, IF Top(st).k = "rm" THEN "detached-in-removed-env" ELSE "detached-in-skipped")
        ELSE IF (Top(st).k = "skip" /\ s = "ske") \/ (Top(st).k = "rm" /\ s = "el")
        THEN LET s2 == [s1 EXCEPT !.ctx = SubSeq(@, 1, Len(@)-1)] IN
-            Emit(s2, <<Lay(IF s = "ske" THEN "cm" ELSE "v")>>)
+            \* (the paragraph break behind a removed environment is generated white space of its \end)
+            Emit(s2, IF s = "ske" THEN <<Lay("cm")>> ELSE <<It("g", "ws", p0+1, p1, 0), Lay("v")>>)
        ELSE s1 )                               \* everything inside is hidden
   ELSE
   CASE s \in Visible ->
@@ -452,6 +454,7 @@ Step(st, s) ==
     [] s = "nl"  -> Emit(s1, <<It("ws", "", 0, 0, 1)>>)
     [] s = "cm"  -> Emit(s1, <<Lay("cm")>>)
     [] s \in {"lb","ix","skp"} -> Emit(s1, <<Lay("v")>>)
+    [] s = "fnm" -> Emit(s1, <<Lay("x")>>)
     [] s = "uk"  -> AddUnk(Emit(s1, <<Lay("cw")>>), <<BS,"f","o","o">>)
     [] s = "uk2" -> AddUnk(Emit(s1, <<Lay("cw")>>), <<BS,"b","a","r">>)
     [] s = "hsu" -> AddUnk(Emit(s1, <<Lay("x"), It("g", "ws", p0+1, p1, 0), Lay("x")>>), <<BS,"f","o","o">>)
